@@ -36,10 +36,16 @@ def run(ck):
         eager = crng.choice([0.0, 0.0, 0.02])
         g = VGrid(nservers=p["nservers"], seed=crng.getrandbits(32), profile=profile, eager_timers=eager,
                   keep_log=False)
+        from allmydata.immutable.downloader.node import DownloadNode
+        saved_guess = DownloadNode.default_max_segment_size
+        # the downloader's initial guess of the segment size (1 MiB in production): below / equal / above the real one
+        DownloadNode.default_max_segment_size = crng.choice([saved_guess, saved_guess, 16, max(1, p["segsize"] // 2),
+                                                              p["segsize"], p["segsize"] * 2 + 1])
         try:
             with ck.watchdog(180, "case %d %r" % (i, p)):
                 one_case(ck, g, p, crng, profile, schedules)
         finally:
+            DownloadNode.default_max_segment_size = saved_guess
             g.close()
         if ck.tier == "quick" and ck.evaluations >= 1200:
             break
